@@ -100,7 +100,9 @@ def _try_replay(ex, ob, rec):
     if ob.model is not None:
         cands.append(("solver", ob.model))
     try:
-        for m in finst.candidates(ex, ob):
+        fc = finst.candidates(ex, ob)
+        rec["finst_sat"] = bool(fc)
+        for m in fc:
             cands.append(("finite-instantiation", m))
     except Exception as e:
         rec["finst_error"] = str(e)[:300]
